@@ -189,7 +189,7 @@ theorem idOfPath_nonnormal (r q : Path) (c : Comp) (d : Bool) (hc : ∀ n, c ≠
   | some p =>
     cases h2 : stripPrefix r p with
     | none => simp [h2]
-    | some rel => cases h3 : runComps [] rel <;> simp [this, h2, h3]
+    | some rel => cases runComps [] rel <;> simp [this]
 
 theorem idOfPath_congr_rel (r rel rel' : Path) (c : Comp) (d : Bool)
     (h : runComps [] rel = runComps [] rel') :
@@ -286,8 +286,8 @@ theorem C12_bad_last_none (r q : Path) (n : OsName) (d : Bool)
     | none => simp [h3]
     | some buf =>
       cases hs : toStr? (splitName n).1 with
-      | none => simp [h3, hs]
-      | some s => simp [h3, hs, push, h s hs]
+      | none => simp
+      | some s => simp [push, h s hs]
 
 example : BadComp (.normal [.ch 'a', .bad 255]) := by simp [BadComp, toStr?]
 example : BadComp (.normal (ofStr ['a', '.', 'b'])) := by
